@@ -40,12 +40,13 @@ FLAVOURS = {
 
 EVENTS = {
     "durq": [("push", A), ("push", B), ("pull",), ("extend", "AB"), ("extend", "BB"), ("clear",),
-             ("reopen",), ("resync",), ("reopen-pre",), ("extend-bad",)],
+             ("reopen",), ("resync",), ("reopen-pre",), ("reopen-map",), ("extend-bad",)],
     "dusq": [("push", A), ("push", B), ("pull",), ("update", "AB"), ("update", "BB"), ("remove", A), ("remove", B),
-             ("clear",), ("reopen",), ("resync",), ("reopen-pre",), ("update-bad",)],
+             ("clear",), ("reopen",), ("resync",), ("reopen-pre",), ("reopen-map",), ("update-bad",)],
 }
 # reopen-pre: like reopen, but the new queue object already holds [B] when it is attached: a non-empty durable copy wins,
 #             an empty one takes the queue's values (Durq.sync / Dusq.sync as documented)
+# reopen-map: like reopen, but store and queue are handed to the new Hold together in one mapping (queue first)
 # extend-bad / update-bad: the values [A, <not a data object>] are refused as a whole: HierError, nothing changes anywhere
 
 
@@ -119,15 +120,19 @@ class QSys:
     def open(self):
         self.sub = during.Subery(name=NAME, headDirPath=self.sb.path, temp=False, reopen=True)
         self.sb.under(self.sub.path)
-        self.hold = Hold()
-        self.hold["_hold_subery"] = self.sub
         if self.preload:
             self.handed = [self.val(c) for c in self.preload]
             self.q = Durq(self.handed) if self.kind == "durq" else Dusq(self.handed)
             self.preload = ""
         else:
             self.q = Durq() if self.kind == "durq" else Dusq()
-        self.hold[QKEY] = self.q      # Hold.__setitem__ -> inject -> sync
+        if getattr(self, "as_mapping", False):
+            self.as_mapping = False
+            self.hold = Hold({QKEY: self.q, "_hold_subery": self.sub})      # Hold.update(mapping) -> inject -> sync
+        else:
+            self.hold = Hold()
+            self.hold["_hold_subery"] = self.sub
+            self.hold[QKEY] = self.q      # Hold.__setitem__ -> inject -> sync
         self.sdb = self.sub.drqs if self.kind == "durq" else self.sub.dsqs
 
     def close(self):
@@ -185,7 +190,7 @@ def model_step(kind, model, ev):
             m.remove(ev[1])
             return (True,), m
         return (False, "exc:KeyError"), m
-    if op in ("reopen", "resync"):
+    if op in ("reopen", "resync", "reopen-map"):
         return None, m
     if op == "reopen-pre":
         return None, (m if m else [B])
@@ -215,6 +220,10 @@ def real_step(s, ev):
         return None
     if op == "reopen-pre":
         s.preload = B
+        s.reopen()
+        return None
+    if op == "reopen-map":
+        s.as_mapping = True
         s.reopen()
         return None
     if op == "extend-bad":
